@@ -18,7 +18,8 @@ def items():
     out = []
     props = {"c12": "C12", "c16": "C16", "c17": "C17", "c18": "C18", "c19": "C19", "r2a": "C18", "r2b": "C17", "r2c": "C12", "r2d": "C16",
              "r3a": "C18", "r3b": "C17", "r3c": "C12", "r3d": "C16", "r3e": "C19", "r4a": "C18", "r4b": "C17", "r4c": "C12", "r5d": "C16", "r5e": "C19",
-             "r6a": "C18", "r6b": "C17", "r6c": "C12", "r6d": "C16", "r6e": "C19"}
+             "r6a": "C18", "r6b": "C17", "r6c": "C12", "r6d": "C16", "r6e": "C19",
+             "r7a": "C18", "r7b": "C17", "r7c": "C12", "r7d": "C16", "r7e": "C19"}
     for p, prop in props.items():
         wt = f"/tmp/wt-{p}"
         for k in sorted(os.listdir(f"{wt}/_seeded")) if os.path.isdir(f"{wt}/_seeded") else []:
